@@ -145,7 +145,7 @@ class C08(TreeSpec):
 class C05(TreeSpec):
     id = "C05"
     judged = ("C05",)
-    own_checks = ("c05_sizing_exception", "c05_refuse", "c05_refuse_state", "c05_zero_amount", "c05_close", "c05_integral", "c05_overspend", "c05_underfill", "c05_cash", "c05_probe_booked")
+    own_checks = ("c05_sizing_exception", "c05_refuse", "c05_refuse_state", "c05_zero_amount", "c05_close", "c05_integral", "c05_overspend", "c05_underfill", "c05_cash", "c05_probe_booked", "c05_position")
     rule = TreeSpec.rule + "; every SecurityBase.allocate call of the run (direct, via rebalance/close/flatten/spread) is judged against the budget rule; non-trivial additionally needs >= 1 judged allocate"
 
     def profile_for(self, r, i):
@@ -1515,7 +1515,8 @@ class C20(Spec):
                 b = _dt.datetime.fromisoformat(dates[k])
                 return (a + (b - a) * r.choice([0.5, 1.0, 1.0])).isoformat() if b > a else dates[k]
 
-            if fam in ("close", "active"):
+            active_roll = fam == "active" and r.random() < 0.5
+            if fam in ("close", "active") and not active_roll:
                 tab = {"kind": "table", "index": tgt_names, "cols": ["date"], "data": [[between(k)] for k in evd[: len(tgt_names)]], "datecols": ["date"]}
                 extra["cd"] = tab
                 head = [{"a": "ClosePositionsAfterDates", "args": ["cd"]}, {"a": "Spy", "id": 3}]
@@ -1651,7 +1652,16 @@ class C20(Spec):
         for n in root.members:
             if not hasattr(n, "capital"):
                 pos[n.name] = n.positions.to_numpy(dtype=float)[1:]
-        if fam in ("close", "active"):
+        if fam == "active" and "target" in plan["x"]["table"]["cols"]:
+            tab = plan["x"]["table"]
+            for sid, t, _p, selected in snaps:
+                if sid == 5:
+                    for name, row in zip(tab["index"], tab["data"]):
+                        if dates[t] >= _dt.datetime.fromisoformat(row[0]) and name in selected:
+                            viol.append({"check": "c20_select_active", "detail": "%s was rolled after %s but SelectActive still selects it on %s" % (name, row[0], dates[t]), "flags": {"table": "roll"}})
+                            break
+                    fired["active_after_roll"] = 1
+        elif fam in ("close", "active"):
             tab = plan["x"]["table"]
             for name, (d,) in zip(tab["index"], tab["data"]):
                 D = _dt.datetime.fromisoformat(d)
